@@ -51,7 +51,7 @@ def LErr.isLanguageError : LErr → Bool
 
 def lowerR : List (Nat × Nat) := [(97, 122)]
 def upperR : List (Nat × Nat) := [(65, 90)]
-def encR : List (Nat × Nat) := [(97, 122), (65, 90), (48, 57), (43, 43), (45, 45)]
+def encR : List (Nat × Nat) := [(43, 43), (45, 45), (48, 57), (65, 90), (97, 122)]
 
 def isLower (c : Char) : Bool := inRanges lowerR c
 def isUpper (c : Char) : Bool := inRanges upperR c
